@@ -77,6 +77,11 @@ var c03SDLAdversarial = []string{
 }
 
 var c03ZooAdversarial = []string{
+	// one object type served by a pointer, by a struct value and by another Go type, each with a method for the field
+	`{ account { name greeting(prefix: "hi") } accountVal { name greeting(prefix: "hi") } }`,
+	`{ accountVal { greeting(prefix: "a") } account { greeting(prefix: "b") } }`,
+	`{ account { greeting(prefix: "a") } accountBot { id greeting(prefix: "b") } }`,
+	`{ accountBot { greeting } accountVal { greeting } account { greeting } member { ... on Member { name } } }`,
 	`{ items { ...F } } fragment F on Item { id ...F }`,
 	`{ items { ...A } } fragment A on Item { ...B } fragment B on Item { ...A id }`,
 	`{ ...Nope }`, `{ items { ...Nope id } }`,
